@@ -441,6 +441,8 @@ type Clause struct {
 	Text    string
 	E       Expr
 	Using   []string
+	Window  int
+	Since   string
 	File    string
 	Line    int
 	Finding bool // ensures that is a known finding candidate (has an as-is pin)
@@ -520,6 +522,8 @@ func NewSpec() *Spec {
 
 var labelRe = regexp.MustCompile(`^\[([A-Za-z0-9_\-]+)\]\s*`)
 var stageRe = regexp.MustCompile(`^\[stage (\d+)\]\s*`)
+var windowRe = regexp.MustCompile(`\s+window\s+(\d+)$`)
+var sinceRe = regexp.MustCompile(`\s+since\s+"([^"]+)"$`)
 var usingRe = regexp.MustCompile(`\s+using\s+([A-Za-z0-9_, \-]+)$`)
 var propsRe = regexp.MustCompile(`\s+props\s+([A-Z0-9, ]+)$`)
 
@@ -580,6 +584,14 @@ func (sp *Spec) ParseContractFile(path, defaultPkg string) error {
 		}
 		mkClause := func(kind, rest string) (*Clause, error) {
 			c := &Clause{Kind: kind, File: path, Line: d.line, Stage: 1}
+			if m := sinceRe.FindStringSubmatch(rest); m != nil {
+				c.Since = m[1]
+				rest = rest[:len(rest)-len(m[0])]
+			}
+			if m := windowRe.FindStringSubmatch(rest); m != nil {
+				c.Window, _ = strconv.Atoi(m[1])
+				rest = rest[:len(rest)-len(m[0])]
+			}
 			if m := usingRe.FindStringSubmatch(rest); m != nil {
 				for _, u := range strings.Split(m[1], ",") {
 					c.Using = append(c.Using, strings.TrimSpace(u))
